@@ -467,7 +467,13 @@ func (r *Reader) PageCount() (int, error) {
 	if err := r.ensurePageTree(); err != nil {
 		return 0, err
 	}
-	return r.pageTree.Count()
+	// Count the page leaves actually present: the root's /Count entry is only a
+	// hint and may be wrong (or absurdly large) in a damaged file.
+	pages, err := r.pageTree.Pages()
+	if err != nil {
+		return 0, err
+	}
+	return len(pages), nil
 }
 
 // GetPage returns the page at the given index (0-based)
